@@ -29,7 +29,7 @@ RULE = (
     "candidates over values {0,1,2} x tags {None,'a','b'} (and table[...] = c); stateless pass: every "
     "history of depth D x every split into batches x 6 policy pairs replayed on fresh objects. "
     "distinct_nontrivial = distinct product states in which a tag set is non-empty or the entry was "
-    "improved at least once (BFS) ; combine: every pair of reachable states x 3 combinators."
+    "improved at least once (BFS) ; combine: every pair of reachable states x 7 combinators (three of them with a tag-dependent value)."
 )
 ASSUMPTIONS = [
     "CPython semantics; infinity package's inf ordering",
@@ -335,6 +335,11 @@ COMBINATORS = {
     "max": lambda l, r: Candidate(max(l.value, r.value), (l.info, r.info)),
     "first": lambda l, r: Candidate(l.value, l.info),
     "sum_right_tag": lambda l, r: Candidate(l.value + r.value, r.info),
+    # combinators whose VALUE depends on the tags of the pair (a same-tag penalty, a bonus for one particular pair):
+    # the pairs of retained candidates are then no longer tied, so "optimum over all pairs" is not "any pair"
+    "sum_same_tag_penalty": lambda l, r: Candidate(l.value + r.value + (1 if l.info == r.info else 0), (l.info, r.info)),
+    "sum_pair_bonus": lambda l, r: Candidate(l.value + r.value - (1 if (l.info, r.info) == ("b", "a") else 0), (l.info, r.info)),
+    "tag_selects_side": lambda l, r: Candidate(l.value if l.info == "a" else r.value + 1, (l.info, r.info)),
 }
 
 
